@@ -1,5 +1,9 @@
 package driver
 
+import (
+	sqldriver "database/sql/driver"
+)
+
 // C12 — the sql driver returns exactly the library's result as rows.
 
 func init() {
@@ -16,6 +20,10 @@ var drvQueries = []drvQuery{
 	{text: `a = "x" | a = "y" ; a, b`, match: func(r drvRow) bool { return r["a"] == "x" || r["a"] == "y" }, groupBy: []string{"a", "b"}},
 	{text: `^ a = "x" ; b, a`, match: func(r drvRow) bool { return r["a"] != "x" }, groupBy: []string{"b", "a"}},
 	{text: `a = "y" & b = "q" ; b`, match: func(r drvRow) bool { return r["a"] == "y" && r["b"] == "q" }, groupBy: []string{"b"}},
+	// bound arguments (repeated and out-of-order placeholders): the rows are those of the query
+	// with the literals in place
+	{text: `a = $1 | b = $1 ; a`, args: []string{"x"}, match: func(r drvRow) bool { return r["a"] == "x" || has(r, "b", "x") }, groupBy: []string{"a"}},
+	{text: `(a = $2 & b = $1) | a = $2 ; b, a`, args: []string{"q", "y"}, match: func(r drvRow) bool { return r["a"] == "y" }, groupBy: []string{"b", "a"}},
 	{text: `zq = "1"`, wantErr: true},
 	{text: `a = "x" ; zq`, wantErr: true},
 	{text: `a = `, wantErr: true},
@@ -59,7 +67,13 @@ func HarnessC12Rows() {
 			q.match = func(r drvRow) bool { return r["a"] == `"` }
 		}
 	}
-	r, err := c.QueryContext(drvCtx, q.text, nil)
+	var named []sqldriver.NamedValue
+	var vals []sqldriver.Value
+	for i, a := range q.args {
+		named = append(named, sqldriver.NamedValue{Ordinal: i + 1, Value: a})
+		vals = append(vals, a)
+	}
+	r, err := c.QueryContext(drvCtx, q.text, named)
 	if q.wantErr {
 		verifAssert(err != nil, "C12: a query the library rejects must be rejected with an error")
 	} else {
@@ -73,7 +87,7 @@ func HarnessC12Rows() {
 		st, err := c.Prepare(q.text)
 		verifAssert(err == nil, "C12: Prepare failed")
 		if err == nil {
-			r2, err := st.Query(nil)
+			r2, err := st.Query(vals)
 			verifAssert(err == nil, "C12: a prepared query failed")
 			if err == nil {
 				drvCheckRows("C12 prepared", q, rows, r2)
